@@ -25,6 +25,7 @@ import (
 type advCase struct {
 	Point string   `json:"point"`
 	Seq   []string `json:"seq"`
+	Dep   bool     `json:"dep"` // a pair of two point-specific classes: always run
 	line  string
 }
 
@@ -298,13 +299,19 @@ func (a *advWorld) craft(class string, n int) (wire.Msg, map[wallet.BackendID]wi
 		if strings.HasPrefix(class, "x-") {
 			side, sender = "B", S
 		}
-		switch strings.TrimSuffix(strings.TrimSuffix(class[2:], "-late"), "-lone") {
+		if strings.HasSuffix(class, "-short") { // the index map of this proposal is one entry short
+			hm.Side, hm.IMap = side, "short"
+		}
+		switch strings.TrimSuffix(strings.TrimSuffix(strings.TrimSuffix(class[2:], "-late"), "-lone"), "-short") {
 		case "vsettle": // the final state 3 / 1 of the funded virtual channel, signed by both end points
 			hm.Sit, hm.VFinal = "vsettle", true
 			return a.hubW.proposal(hm, side, false, a.vparams, a.hubW.vState(hm, a.vparams, 3, 1, 1, true, "-")), sender
 		case "vfund2": // a second virtual channel 1 / 1
 			hm.Sit = "vfund"
 			return a.hubW.proposal(hm, side, true, a.vparams2, a.hubW.vState(hm, a.vparams2, 1, 1, 0, false, "-")), sender
+		case "vfund2z": // a second virtual channel 2 / 0: X owns nothing in it
+			hm.Sit = "vfund"
+			return a.hubW.proposal(hm, side, true, a.vparams2, a.hubW.vState(hm, a.vparams2, 2, 0, 0, false, "-")), sender
 		}
 	}
 	// ---- responses to H's own proposal in flight ----
@@ -727,7 +734,7 @@ func TestAdversary(t *testing.T) {
 	byPoint := map[string][]int{}
 	var points []string
 	for i, c := range all {
-		if len(c.Seq) == 1 {
+		if len(c.Seq) == 1 || c.Dep {
 			cases = append(cases, c)
 		} else {
 			if _, ok := byPoint[c.Point]; !ok {
